@@ -51,7 +51,7 @@ _COV = re.compile(r"^<(\w+) line \d+, col \d+ to line \d+, col \d+ of module (\w
 
 
 def java_cmd(workers: int | str = 1, heap: str | None = None, dfid: bool = False) -> list[str]:
-    cmd = ["java", "-XX:+UseSerialGC" if str(workers) == "1" else "-XX:+UseParallelGC"]
+    cmd = ["java", "-Xss64m", "-XX:+UseSerialGC" if str(workers) == "1" else "-XX:+UseParallelGC"]
     if heap:
         cmd.append(f"-Xmx{heap}")
     cmd += ["-cp", f"{JAR}:{DEPS}", "tlc2.TLC"]
